@@ -1,4 +1,5 @@
 import NbioVerif.Properties.C11
+import NbioVerif.Lemmas.SrcBridgeResp
 #print axioms Own.c11_response_no_double_free_no_use_after_free
 #print axioms Own.c11_response_unique_owner
 #print axioms Own.c11_response_released
@@ -11,3 +12,5 @@ import NbioVerif.Properties.C11
 #print axioms OwnW.c11_ws_ownership
 #print axioms OwnW.c11_ws_close_releases
 #print axioms OwnW.c11_ws_queued_payload_live
+#print axioms Resp.src_maxPacket
+#print axioms OwnC.src_maxCache
